@@ -201,3 +201,5 @@ def run(F, S, R, tier):
         else:
             R.bad("prov/filter/main-chain", "build_filter_data no longer walks main-chain heights", [bd.where()])
     R.guard("filter", block_filter)
+    import common as _common
+    _common.effects(R, F, ['commitments'])
